@@ -180,6 +180,14 @@ func (e *ExecutorV3) RunTx(context state.Interface, rawTx []byte, rewardPool *bi
 	coinCommission := abcTypes.EventAttribute{Key: []byte("tx.commission_price_coin"), Value: []byte(strconv.Itoa(int(commissions.Coin)))}
 	priceCommission := abcTypes.EventAttribute{Key: []byte("tx.commission_price"), Value: []byte(price.String())}
 
+	if price.Sign() == -1 {
+		return Response{
+			Code: code.CommissionCoinNotSufficient,
+			Log:  fmt.Sprint("Not possible to pay commission"),
+			Info: EncodeError(code.NewCommissionCoinNotSufficient("", "")),
+		}
+	}
+
 	if price.Sign() != 0 {
 		if !commissions.Coin.IsBaseCoin() {
 			var resp *Response
